@@ -163,13 +163,14 @@ def gen_ring(ctx):
     allgets = gets
     # exhaustive: every sequence of <= 5 Sets (3 ids incl. the zero id, 2 addresses), all ids read after every Set
     for cap in (0, 1, 2):
-        for n in range(0, 6 if (cap == 2 or thorough) else 5 if cap == 1 else 4):
+        nsets = 5 if (cap == 2 or thorough) else 4 if cap == 1 else 3
+        for n in range(0, nsets + 1):
             for seq in itertools.product(sets, repeat=n):
                 ops = list(allgets)
                 for s in seq:
                     ops.append(s)
                     ops += allgets
-                lines.append(ring_line(cap, ops)); kinds.append("ring-exh-sets<=5-cap%d" % cap)
+                lines.append(ring_line(cap, ops)); kinds.append("ring-exh-sets<=%d-cap%d" % (nsets, cap))
     # exhaustive over the full alphabet (Sets and Gets in any order)
     nmax = 5 if thorough else 4
     for cap in (0, 1, 2):
